@@ -20,6 +20,59 @@ const TOKENS: [&str; 21] = [
     "==", "<", ">=", ",", "f", " ",
 ];
 
+const KEY_ALPHA: [&str; 9] = ["a", "b", ".", "[", "]", "0", "1", "-", " "];
+
+fn key_rule(k: &str, form: u8) -> Y {
+    let ys = |x: &str| Y::String(x.to_string());
+    let mut body = serde_yaml::Mapping::new();
+    match form {
+        0 => {
+            body.insert(ys(k), ys("x"));
+        }
+        1 => {
+            let mut inner = serde_yaml::Mapping::new();
+            inner.insert(ys(k), ys("x"));
+            body.insert(ys("n"), Y::Mapping(inner));
+        }
+        2 => {
+            body.insert(ys(&format!("all({})", k)), Y::Sequence(vec![ys("x"), ys("*y")]));
+        }
+        _ => {
+            body.insert(ys(&format!("int({})", k)), Y::Number(1.into()));
+        }
+    }
+    let mut det = serde_yaml::Mapping::new();
+    det.insert(ys("A"), Y::Mapping(body));
+    det.insert(ys("condition"), ys("A"));
+    let mut top = serde_yaml::Mapping::new();
+    top.insert(ys("detection"), Y::Mapping(det));
+    top.insert(ys("true_positives"), Y::Sequence(vec![]));
+    top.insert(ys("true_negatives"), Y::Sequence(vec![]));
+    Y::Mapping(top)
+}
+
+fn key_docs() -> Vec<crate::mdoc::MObj> {
+    let o = |v: MVal| match v {
+        MVal::Obj(o) => o,
+        _ => unreachable!(),
+    };
+    vec![
+        o(obj(vec![])),
+        o(obj(vec![("a", s("x")), ("b", MVal::Int(1))])),
+        o(obj(vec![("a", arr(vec![s("x"), s("y")])), ("b", obj(vec![("a", s("x"))]))])),
+        o(obj(vec![
+            ("a", obj(vec![("b", s("x")), ("0", s("x")), ("a", arr(vec![s("x")]))])),
+            ("n", obj(vec![("a", arr(vec![s("x")])), ("b", obj(vec![("a", s("x"))]))])),
+        ])),
+        o(obj(vec![
+            ("a]b", arr(vec![s("x")])),
+            ("a[0]", s("x")),
+            ("a", arr(vec![obj(vec![("b", s("x"))]), arr(vec![s("x")])])),
+            ("n", arr(vec![obj(vec![("a", s("x"))])])),
+        ])),
+    ]
+}
+
 /// a nested object whose every `get` is again a choice point (over the scalar / array answers)
 pub struct AdvObj {
     pub answers: Vec<Option<MVal>>,
@@ -365,12 +418,73 @@ pub fn run(tier: Tier) -> i32 {
             }
         }
     }
+    // (d) every short string over a bracket/dot alphabet as a *field name*, evaluated on concrete
+    // documents through the crate's own Object::find (the adversarial document answers find() itself,
+    // so the path parser inside Object::find is only reached here)
+    let key_len = if th { 5 } else { 4 };
+    let ktotal = count_upto(KEY_ALPHA.len(), key_len);
+    let kdocs = key_docs();
+    let kchunks: Vec<u64> = (0..(ktotal + 2047) / 2048).collect();
+    let parts: Vec<Stats> = kchunks
+        .par_iter()
+        .map(|c| {
+            let mut st = Stats::default();
+            for i in (c * 2048)..((c * 2048 + 2048).min(ktotal)) {
+                let k = nth_string(&KEY_ALPHA, i);
+                for form in 0..4u8 {
+                    let v = key_rule(&k, form);
+                    let yaml = serde_yaml::to_string(&v).unwrap_or_default();
+                    st.transitions += 1;
+                    let r = match catch(move || Rule::from_value(v)) {
+                        Ok(Ok(r)) => r,
+                        _ => continue,
+                    };
+                    st.count("odd_field_names_loaded", 1);
+                    st.nontrivial += 1;
+                    for sw in [0u8, 15] {
+                        let r2 = match eng::optimise_with(&r, sw, &[]) {
+                            Ok((x, _)) => x,
+                            Err(msg) => {
+                                st.push_violation(Violation {
+                                    signature: format!("panic-in-optimise:{}", msg.chars().take(50).collect::<String>()),
+                                    witness: format!("optimise({}) panics: {} ; field name {:?}", eng::sw_name(sw), msg, k),
+                                    replay: json!({"kind":"optimise","rule_yaml":yaml,"sw_bits":sw,"hash_order_choices":[]}),
+                                });
+                                continue;
+                            }
+                        };
+                        for d in &kdocs {
+                            let ym = crate::mdoc::to_yaml_map(d);
+                            let a = catch(|| r2.matches(d));
+                            let b = catch(|| r2.matches(&ym));
+                            st.states += 1;
+                            st.transitions += 2;
+                            st.evaluations += 2;
+                            st.traces += 2;
+                            if let Err(msg) = a.and(b) {
+                                st.push_violation(Violation {
+                                    signature: format!("panic-in-matches:{}", msg.chars().take(50).collect::<String>()),
+                                    witness: format!("matches panics ({}) for field name {:?} (form {}) after optimise({}) on {}", msg, k, form, eng::sw_name(sw), d.show()),
+                                    replay: json!({"kind":"optimise","rule_yaml":yaml,"sw_bits":sw,"hash_order_choices":[],"document":crate::report::mobj_to_json(d)}),
+                                });
+                            }
+                        }
+                    }
+                }
+            }
+            st
+        })
+        .collect();
+    for p in parts {
+        rep.stats.merge(p);
+    }
+    rep.stats.count("odd_field_names_enumerated", ktotal);
     rep.exhaustive = rep.stats.counters.get("variants_with_answer_cap_hit").cloned().unwrap_or(0) == 0;
     rep.stats.sample(json!({"condition":"A and not(f)","outcome":"must be rejected at load, or evaluate without panic"}));
     rep.stats.sample(json!({"rule":"B and all(A)","switches":"shake+matrix","document_answers":["NaNf","absent","[1i, \"a\", null, {x: \"a\"}, []]"]}));
     rep.extra.insert("deviation_bound".into(), json!(bound));
     rep.extra.insert("answer_alphabet".into(), json!(adv_answers.iter().map(|a| a.as_ref().map(|v| v.show()).unwrap_or("absent".into())).collect::<Vec<_>>()));
-    rep.rule = "conditions: every token string up to the length bound over 21 tokens, loaded over identifier bodies of every value kind; every loaded condition (distinct parse trees) and every rule of the shared universe x 16 switch sets (distinct optimised trees) x an adversarial document whose every find() answer is a choice point over the value-kind alphabet (answers need not be consistent), explored exhaustively up to the stated number of deviations from the default answer; plus validate() over example lists of every YAML kind. Oracle: no panic in optimise / matches / validate, and structurally every operand of and/or/not is a predicate and every identifier exists. non-trivial = loaded rule".into();
+    rep.rule = "conditions: every token string up to the length bound over 21 tokens, loaded over identifier bodies of every value kind; every loaded condition (distinct parse trees) and every rule of the shared universe x 16 switch sets (distinct optimised trees) x an adversarial document whose every find() answer is a choice point over the value-kind alphabet (answers need not be consistent), explored exhaustively up to the stated number of deviations from the default answer; plus validate() over example lists of every YAML kind; plus every string up to the length bound over {a b . [ ] 0 1 - blank} as a field name (plain, inside a nested block, under all() and int()) matched unoptimised and fully optimised against five concrete documents in two representations through the crate's own Object::find. Oracle: no panic in optimise / matches / validate, and structurally every operand of and/or/not is a predicate and every identifier exists. non-trivial = loaded rule".into();
     rep.assumptions = vec!["nested objects returned by the adversarial document are fixed trees (only top-level answers are choice points)".into()];
     rep.finish()
 }
